@@ -112,16 +112,15 @@ func evalFS(bin, work string, c Case) *Outcome {
 	}
 	exp := Reference(root, inv, []byte(c.Stdin))
 	o.Exp = exp
-	o.Shape = exp.Shape
 	o.Known = exp.Known
 	if exp.NotJudged != "" {
 		o.NotJudged = exp.NotJudged
 		return o
 	}
-	for _, t := range exp.Tasks {
-		if t.InPlace && !strings.Contains(o.Shape, "+inplace") {
-			o.Shape += "+inplace"
-		}
+	o.Shape = exp.Shape
+	if exp.Known != "" && !allowKnown() {
+		o.NotJudged = "avoided-known-condition:" + exp.Known
+		return o
 	}
 	before, err := Snap(root)
 	if err != nil {
@@ -153,6 +152,9 @@ func evalFS(bin, work string, c Case) *Outcome {
 	}
 	return o
 }
+
+// allowKnown: the shapes of known findings are evaluated only with -known or for an explicit witness.
+func allowKnown() bool { return *flagKnown || *flagWitness != "" }
 
 func dontCare(exp *Expect, p string) bool {
 	for _, d := range exp.DontCare {
